@@ -213,10 +213,14 @@ class Tr:
         self.parse(text)
 
     # ---------- C names ----------
+    RENAME = {'atexit': '__vf_atexit', '__cxa_atexit': '__vf_cxa_atexit'}
+
     def cid(self, n):
         n = n[1:]
         if n.startswith('"'):
             n = n[1:-1]
+        if n in self.RENAME:
+            return self.RENAME[n]
         return re.sub(r'[^A-Za-z0-9_]', lambda m: '_%02x' % ord(m.group()), n)
 
     def ctype(self, t):
@@ -551,6 +555,13 @@ class Tr:
         return '(%s){0}' % self.ctype(t)
 
     def gep_expr(self, st, base, idx):
+        if len(idx) == 1:
+            # plain pointer arithmetic: p + 0 is p (also for a null p, which C++ allows and CBMC's pointer check would flag)
+            i0 = self.sx(idx[0])
+            if i0 == '0':
+                return '((void*)%s)' % base
+            if not re.fullmatch(r'-?\d+', i0):
+                return '((%s) == 0 ? (void*)%s : (void*)&((%s*)%s)[%s])' % (i0, base, self.ctype(st) if st[0] != 'func' else 'char', base, i0)
         e = '((%s*)%s)[%s]' % (self.ctype(st) if st[0] != 'func' else 'char', base, self.sx(idx[0]))
         t = st
         for i in idx[1:]:
@@ -912,6 +923,8 @@ class Tr:
         return sig + ' {\n' + '\n'.join(decl) + '\n' + '\n'.join('  ' + c for c in code) + '\n}\n'
 
     def parse_inst(self, ln):
+        if '@llvm.experimental.noalias.scope.decl' in ln or '@llvm.dbg.' in ln:
+            return ('nop',)
         ln = re.sub(r', ![a-zA-Z_.]+ ![0-9]+', '', ln)
         ln = re.sub(r' \[ "[^\]]*\]$', '', ln)
         p = P(tokenize(ln))
@@ -1373,7 +1386,7 @@ class Tr:
             ct = self.ctype(t)
             pre = ['__vf_acc(%s, sizeof(%s), 3);' % (a, ct)] if self.acc_on else []
             return pre + ['%s.f0 = *(%s*)%s; %s.f1 = (%s.f0 == %s); if (%s.f1) *(%s*)%s = %s;' % (L(d), ct, a, L(d), L(d), e, L(d), ct, a, n)]
-        if k == 'fence':
+        if k in ('fence', 'nop'):
             return [';']
         if k == 'call':
             _, d, rt, callee, direct, args, ft = ins
